@@ -107,6 +107,7 @@ class VTT(Value):
 class VTensor(Value):
     val: object            # Dense | Block
     dtype: str = "?"
+    counts: object = None  # optional list of P: how many real axes each (bundled) axis stands for
 
     def dense(self) -> Dense:
         if isinstance(self.val, Block):
